@@ -10,6 +10,7 @@ import threading
 import types
 
 _STATE = {'installed': False, 'saved': [], 'sites': []}
+_RealEvent = threading.Event
 ACTIVE = None          # the controller of the current run (or None)
 
 
@@ -105,8 +106,12 @@ class Controller:
         sim = self.sim
         if sim is not None and (sim.in_worker or sim.in_step):
             return                      # never inside a simulated worker process
-        if self.baton is not None and threading.current_thread() is not self.baton.holder_thread():
-            return
+        t = threading.current_thread()
+        if self.baton is not None:
+            if t is not self.baton.holder_thread():
+                return
+        elif t is not threading.main_thread():
+            return          # threads started by the code under test are never interrupted
         self.hits += 1
         self.sites_seen.add(site)
         if self.armed is not None and site not in self.armed:
@@ -279,12 +284,18 @@ class sim_locks:
     """Context manager: threading.Lock / RLock create simulator-aware locks inside the block."""
 
     def __enter__(self):
-        self._saved = (threading.Lock, threading.RLock)
+        from . import simpool
+        self._saved = (threading.Lock, threading.RLock, threading.Event, threading.Condition,
+                       threading.Semaphore, threading.BoundedSemaphore)
         threading.Lock, threading.RLock = SimLock, SimRLock
+        threading.Event, threading.Condition = simpool.SimAwareEvent, simpool.SimAwareCondition
+        threading.Semaphore = simpool.SimAwareSemaphore
+        threading.BoundedSemaphore = simpool.SimAwareBoundedSemaphore
         return self
 
     def __exit__(self, *exc):
-        threading.Lock, threading.RLock = self._saved
+        (threading.Lock, threading.RLock, threading.Event, threading.Condition,
+         threading.Semaphore, threading.BoundedSemaphore) = self._saved
         return False
 
 
@@ -295,8 +306,8 @@ class Baton:
     def __init__(self, tape, n):
         self.tape = tape
         self.n = n
-        self.events = [threading.Event() for _ in range(n)]
-        self.done_event = threading.Event()
+        self.events = [_RealEvent() for _ in range(n)]
+        self.done_event = _RealEvent()
         self.alive = list(range(n))
         self.current = None
         self.threads = [None] * n
